@@ -44,7 +44,9 @@ RULE = ('case = one template description (gen/templates.py) with a `where` '
         'identity (no mutable object of a result is part of another result or '
         'of the template), the client edits one result in place (alternately '
         'the one handed out first / second; random append / setitem / new key / '
-        'pop / rebind in every container) and decodes again, encode, '
+        'pop / rebind in every container) and decodes again, encode (of the '
+        'decoded value, of its deep clone, and of an equal value rebuilt from '
+        'plain or symbolic dicts / lists with permuted dict key order), '
         'materialize; every template: pg.iter, '
         'random sampling, dynamic evaluation, non-member DNAs, and a HISTORY of '
         'decode / client edit of a handed-out value / random_dna(previous_dna) / '
@@ -67,7 +69,7 @@ REQUIRED_COUNTERS = ['spec_checks', 'decode_checks', 'reference_compared',
                      'bound_spec_templates', 'evolve_step_templates',
                      'history_ops', 'history_held_checks',
                      'history_redecode_checks', 'history_children',
-                     'identity_checks', 'history_edits',
+                     'identity_checks', 'history_edits', 'encode_key_order_checks',
                      'history_fresh_template_checks']
 ASSUMPTIONS = [
     'a DNA is valid for a template iff its decisions are a member of the space derived from the description (genoref); DNAs are built in the documented nested form, some bound to the template\'s own spec',
@@ -467,6 +469,70 @@ def check_identity(ctx, cs, values, detail):
   return False
 
 
+def permuted_copy(v, rng, plain, stats):
+  """A value equal to `v`, rebuilt from scratch: every dict (plain=True:
+  built-in dicts / lists, else pg.Dict / pg.List) lists its keys in another
+  order; objects are constructed again from their (rebuilt) fields."""
+  if isinstance(v, pg.hyper.HyperPrimitive):
+    return v.clone(deep=True)                 # a placeholder the filter left
+  if isinstance(v, pg.Object):
+    return type(v)(**{k: permuted_copy(x, rng, plain, stats)
+                      for k, x in v.sym_items()})
+  if isinstance(v, dict):
+    src = v.sym_items() if isinstance(v, pg.Dict) else v.items()
+    items = [(k, permuted_copy(x, rng, plain, stats)) for k, x in src]
+    if len(items) >= 2:
+      keys = [k for k, _ in items]
+      rng.shuffle(items)
+      if [k for k, _ in items] == keys:
+        items.reverse()
+      stats['permuted'] += 1
+    return dict(items) if plain else pg.Dict(dict(items))
+  if isinstance(v, list):
+    src = [x for _, x in v.sym_items()] if isinstance(v, pg.List) else list(v)
+    items = [permuted_copy(x, rng, plain, stats) for x in src]
+    return items if plain else pg.List(items)
+  return v
+
+
+def check_key_order(ctx, cs, dna, value, e_value, c_value, plain):
+  """encode(value') == encode(value) for value' equal to the decoded `value`
+  but rebuilt with permuted dict key order. False when the case must end."""
+  c = ctx.counters
+  stats = {'permuted': 0}
+  try:
+    other = permuted_copy(value, ctx.rng, plain, stats)
+    equal = TT.canon_value(other) == c_value and bool(pg.eq(other, value))
+  except Exception:  # pylint: disable=broad-except
+    c['key_order_rebuild_failed'] += 1        # e.g. a value its class refuses
+    return True
+  if not stats['permuted']:
+    c['key_order_no_dict_with_two_keys'] += 1
+    return True
+  if not equal:
+    c['key_order_rebuild_not_equal'] += 1
+    return True
+  form = 'plain-dict' if plain else 'pg.Dict'
+  c['encode_key_order_checks'] += 1
+  c['encode_key_order:' + form] += 1
+  try:
+    e = cs.t.encode(other)
+  except Exception as ex:  # pylint: disable=broad-except
+    if not is_lib_error(ex) and not isinstance(ex, (ValueError, TypeError, KeyError, NotImplementedError)):
+      raise
+    ctx.violation('encode-key-order', f'encode-raised:{form}',
+                  f'encode(decode({dna!r})) = {e_value!r}, but encode of the equal value '
+                  f'{other!r:.500} (dict keys in another order) raised:\n{tb(ex)}', cs.record)
+    return check_snapshot(ctx, cs, 'encode')
+  if not check_snapshot(ctx, cs, 'encode'):
+    return False
+  if dna_shape(e) != dna_shape(e_value):
+    ctx.violation('encode-key-order', f'encode:{form}',
+                  f'encode(decode({dna!r})) = {e_value!r}, but encode of the equal value '
+                  f'{other!r:.500} (dict keys in another order) = {e!r}', cs.record)
+  return True
+
+
 def check_dna(ctx, cs, m, j):
   """All monitors for one valid DNA. Returns False when the case must end."""
   c = ctx.counters
@@ -568,6 +634,7 @@ def check_dna(ctx, cs, m, j):
     else:
       d1 = d3                          # an unedited result for the checks below
   # -- encode is the inverse of decode
+  e_value = v_value = None
   for variant_name in ('value', 'clone'):
     if not same:
       c['encode_skipped_wrong_value'] += 1
@@ -587,6 +654,8 @@ def check_dna(ctx, cs, m, j):
     c['encode_checks'] += 1
     try:
       e = cs.t.encode(d1)
+      if variant_name == 'value':
+        e_value, v_value = e, d1
     except Exception as ex:  # pylint: disable=broad-except
       if not is_lib_error(ex) and not isinstance(ex, (ValueError, TypeError, KeyError, NotImplementedError)):
         raise
@@ -631,6 +700,10 @@ def check_dna(ctx, cs, m, j):
     elif not (e == dna):
       ctx.violation('encode-not-inverse', 'encode:DNA.__eq__',
                     f'{e!r} has the shape of {dna!r} but is not == to it', cs.record)
+  # -- encode of an EQUAL value whose dicts list their keys in another order
+  if e_value is not None and cs.dist and not check_key_order(
+      ctx, cs, dna, v_value, e_value, c1, plain=(j % 2 == 0)):
+    return False
   # -- pg.materialize with the DNA and with a parameter dict
   if j >= 2:
     return True
